@@ -1,13 +1,17 @@
 PROP = {
-    "kani_groups": ["hk_core_min"],
+    "kani_groups": ["hk_core_min", "hk_emit_min"],
     "smt": [],
     "technique": "bounded model checking of the compiled parsers/formatters with Kani/CBMC over symbolic text",
     "functions": [
         "emit_core::timestamp::{parse_rfc3339, fmt_rfc3339, Timestamp::try_from_str, from_str, from_parts}",
         "emit_core::path::{is_valid_path, Path::new_ref}",
+        "emit::span::{TraceId, SpanId}::{try_from_hex_slice, from_str, to_hex, from_u128/from_u64, from_bytes, to_bytes, Display, from_value}",
+        "emit::level::{Level::from_str, parse, Display, from_value}, emit::kind::{Kind::from_str, Display, from_value}",
     ],
     "bounds": "timestamp text: every length 0..=32 (quick: 0..=19 symbolic, 20,21,22,25,30,31), bytes over "
-              "{0,1,2,9,-,:,.,T,Z,+,blank,z,x} plus one U+00E9 at a symbolic offset; paths <= 5 (thorough 7) bytes over {a,b,_,1,:,blank,U+00E9}",
+              "{0,1,2,9,-,:,.,T,Z,+,blank,z,x} plus one U+00E9 at a symbolic offset; paths <= 5 (thorough 7) bytes over {a,b,_,1,:,blank,U+00E9}; "
+              "ids: every 32 / 16 byte string over all 256 byte values, every length 0..=35, every non-zero 128/64-bit value; "
+              "levels: strings <= 4 (thorough 6) bytes over an 18-symbol alphabet; kinds <= 6 bytes",
     "outside": "bytes outside the alphabets; strings longer than the stated lengths for the lenient parsers",
     "stubs": ["Timestamp::from_parts -> recorder (field-extraction and round-trip harnesses only)",
               "Timestamp::to_parts -> arbitrary in-range Parts (round-trip / order harnesses only)",
